@@ -32,11 +32,23 @@ func runC14(p *Prog, r *Report) {
 
 	// ---- R1
 	r.Rule("C14.R1", "one role per parameter: in method.Parse's parameter loop each arm of the role switch (incl. default) assigns arg.Use once, and `RawArgs = append(RawArgs, arg)` occurs once per iteration outside any condition; buildMethod ranges over RawArgs and appends exactly one emitted parameter per role arm", 6)
+	// the parameter loop is the loop whose body appends to Parameters.RawArgs (whatever its header looks like)
 	var loop *ast.ForStmt
-	ast.Inspect(fi.Decl, func(n ast.Node) bool {
-		fs, ok := n.(*ast.ForStmt)
-		if ok && loop == nil && strings.Contains(exprString(fs.Cond), "Params().Len()") {
-			loop = fs
+	walkStack(fi.Decl, func(n ast.Node, stack []ast.Node) bool {
+		as, ok := n.(*ast.AssignStmt)
+		if !ok || loop != nil || len(as.Lhs) != 1 || !isFieldSel(info, as.Lhs[0], modPath+"/method", "Parameters", "RawArgs") {
+			return true
+		}
+		for i := len(stack) - 1; i >= 0; i-- {
+			if fs, ok := stack[i].(*ast.ForStmt); ok {
+				loop = fs
+				break
+			}
+			if rs, ok := stack[i].(*ast.RangeStmt); ok {
+				// normalise to the fields the rule uses
+				loop = &ast.ForStmt{For: rs.For, Body: rs.Body}
+				break
+			}
 		}
 		return true
 	})
